@@ -54,20 +54,23 @@ def replace_at(plan, path, value):
     return cand
 
 
-def minimise(run_fn, shrink_fn, plan, sig, budget, same=None):
+def minimise(run_fn, shrink_fn, plan, sig, budget, same=None, wall_limit=None):
     """Greedy minimisation. run_fn(plan) -> (sig_or_None, final_plan); final_plan lets threaded
     engines return the plan with the decisions actually taken.
 
     Returns (minimal_plan, executions_used)."""
     if same is None:
         same = lambda a, b: a == b  # noqa: E731
+    import time
+    t0 = time.time()
     cur = plan
     used = 0
     improved = True
     while improved and used < budget:
         improved = False
         for cand in shrink_fn(cur):
-            if used >= budget:
+            if used >= budget or (wall_limit is not None and time.time() - t0 > wall_limit):
+                improved = False
                 break
             used += 1
             got, final = run_fn(cand)
